@@ -15,12 +15,18 @@ class Empty(Exception):
     pass
 
 
+class WouldHang(BaseException):
+    """the real program would block forever here (BaseException: the code's catch-alls must not turn it into a verdict)"""
+
+
 class _Queues(object):
     Empty = Empty
 
 
 class World(object):
-    def __init__(self, plan, lags=None):
+    def __init__(self, plan, lags=None, child_first=False, kill_fails=False):
+        self.child_first = child_first      # a freshly started child gets to run before its parent continues
+        self.kill_fails = kill_fails        # os.kill raises OSError and the target stays alive (e.g. EPERM)
         self.now = 0
         self.plan = plan            # per task (in the order tasks are taken by workers): (kind, delay_ticks)
         self.lags = lags or []      # lag (ticks) before the i-th clock read of the parent (cyclic)
@@ -141,6 +147,8 @@ class Process(object):
         self.results = eq._compare_results
         self.terminate = eq._terminate_process
         self.w.procs.append(self)
+        if self.w.child_first:
+            self.w.advance(0)       # fork returns in the child first: it may look at the terminate flag right away
 
     def is_alive(self):
         self.w.advance(0)
@@ -151,14 +159,14 @@ class Process(object):
         self.w.advance(0)
         if self.alive:
             if self.busy is not None and self.busy[0] == 'hang':
-                raise AssertionError('join() on a hung worker: the comparison run would never finish')
+                raise WouldHang('join() on a hung worker: the comparison run would never finish')
             if not self.terminate.is_set():
-                raise AssertionError('join() on a worker that was not told to terminate: would never return')
+                raise WouldHang('join() on a worker that was not told to terminate: would never return')
             # finish what it is doing, then it sees the event and exits
             while self.alive:
                 t = self.next_event_time()
                 if t is None:
-                    raise AssertionError('join() would hang')
+                    raise WouldHang('join() would hang')
                 if t > self.w.now:
                     self.w.now = t
                 self.fire()
@@ -225,6 +233,8 @@ class FakeOS(object):
     def kill(self, pid, sig):
         import signal
         self.w.kills.append((pid, sig))
+        if self.w.kill_fails:
+            raise OSError(1, 'Operation not permitted (model)')
         for p in self.w.procs:
             if p.pid == pid:
                 # only SIGKILL cannot be caught: a hung replay may handle or ignore anything else and stay alive
